@@ -10,7 +10,7 @@ RULE = ("random programs with 0-4 macros (call DAG among earlier macros, paramet
         "the calls follow a call with the other preserve_definitions value on the same object; oracle = reference call-by-substitution applied to the "
         "input IR object; non-trivial = the program contains at least one macro call; distinct = S-expression + flags")
 ASSUMPTIONS = ["reference substitution semantics in vf/meaning.py (written from the Jaqal rules, shares no code with expand_macros.py)"]
-TIERS = {"quick": {"shards": 8, "budget_s": 90}, "thorough": {"shards": 16, "budget_s": 300}}
+TIERS = {"quick": {"shards": 8, "budget_s": 180}, "thorough": {"shards": 16, "budget_s": 300}}
 REQUIRE = {"hand-made-statements-listing-names-in-another-order": 3000, "circuits-built-through-CircuitBuilder": 1000, "calls-after-earlier-call-on-same-object": 1000, "calls": 200, "nested-macro-programs": 20, "ctx:loop": 10, "ctx:par": 10, "ctx:sub": 5, "wrong-arity-probes": 20,
            "preserve:True": 50, "preserve:False": 50}
 
